@@ -401,7 +401,8 @@ PROPS["C17"] = {
     "assumptions": ENG_ASSUME + ["loopback ports come from a per-process block below the kernel's ephemeral range (10000 + (pid mod 110)*200 + k); the address of an unreachable peer is held by a bound, non-listening socket"],
     "legs": [rapid("flows", "net", "TestRemoteFlows", 60, 1200, shards=(2, 12)),
              plain("unreach", "net", "TestUnreachable", timeout={"quick": 300, "thorough": 600}),
-             plain("restart", "net", "TestPeerRestart", timeout={"quick": 300, "thorough": 1200})],
+             plain("restart", "net", "TestPeerRestart", timeout={"quick": 300, "thorough": 1200}),
+             rapid("lifecycle", "net", "TestRemoteLifecycle", 60, 600, shards=(2, 8))],
 }
 
 PROPS["C19"] = {
